@@ -35,7 +35,9 @@ PLAN = {
     "C13": {"mc": ["MC_Seek"], "impl": ["MC_ImplSnap"], "impl_thorough": ["MC_ImplSnap_thorough", "MC_ImplSeek"], "gen": [("Gen_Seek", 120, 4000, 32, True), ("Gen_Snap", 80, 4000, 30, True), ("BFS_Snap", 0, 60000, 8, False)]},
     "C14": {"mc": ["MC_Timing"], "gen": [("Gen_Timing", 260, 6000, 30, True),
                                         # retention restarted by a seek that revives a message (to a time, to a snapshot)
-                                        ("Gen_Snap", 60, 1500, 30, True), ("Gen_Seek", 60, 1500, 32, True)]},
+                                        ("Gen_Snap", 60, 1500, 30, True), ("Gen_Seek", 60, 1500, 32, True),
+                                        # retention of dead-letter forwarded copies (counted from the forwarding)
+                                        ("Gen_DeadLetter", 60, 1500, 32, True), ("BFS_DL", 0, 0, 8, False)]},
     "C15": {"mc": ["MC_Prune"], "gen": [("Gen_Prune", 200, 5000, 34, True), ("Gen_Names", 60, 1500, 32, True),
                     # dead-letter forwards leave messages of one topic outstanding on subscriptions of another:
                     # reclaiming the source topic must leave them alone
